@@ -864,6 +864,9 @@ case('C20', "C20-seed11", "mutant", 'seeded (round 6): scheme/ocidir/tag.go OCID
 case("C10", "C10-D25", "mutant", "historical defect D25 re-introduced: referrerDelete invalidates the cached list only before it takes the fallback tag lock",
      patch="selftest/regress/D25.diff", expect=[("C10.R2", "referrerDelete", "delete invalidates again under the lock")])
 
+case('C17', "C17-seed10", "mutant", 'seeded (round 6): types/blob BReader.ToTarReader detaches the reader (reader/origRdr set to nil): Close no longer reaches the response, the slot is lost',
+     patch="seeded/C17-10/patch.diff", expect=[('C17.R13', 'ToTarReader', "source field origRdr cleared")])
+
 def main():
     bad = 0
     for pid, cases in CASES.items():
